@@ -10,14 +10,21 @@
 package c04
 
 import (
+	"context"
 	"fmt"
 	"path"
 	"sync"
 	"testing"
 	"time"
 
+	"github.com/pingcap/kvproto/pkg/metapb"
+	"github.com/pingcap/kvproto/pkg/pdpb"
 	"github.com/tikv/pd/pkg/typeutil"
+	"github.com/tikv/pd/server/cluster"
+	"github.com/tikv/pd/server/config"
+	"github.com/tikv/pd/server/core"
 	"github.com/tikv/pd/server/id"
+	"github.com/tikv/pd/server/kv"
 	"go.etcd.io/etcd/clientv3"
 	"pdverif/vkit"
 	"pdverif/vkit/etcdfix"
@@ -37,7 +44,7 @@ func init() {
 }
 
 type Op struct {
-	K     string `json:"k"` // alloc, rebase, leader, crash, fail, conc, race
+	K     string `json:"k"` // alloc, rebase, leader, crash, fail, conc, race, split (J peers; N = 0: AskSplit, N >= 1: AskBatchSplit with N splits)
 	I     int    `json:"i"`
 	J     int    `json:"j,omitempty"`
 	N     int    `json:"n,omitempty"`
@@ -63,7 +70,17 @@ func genCase(t *rapid.T) Case {
 		c.Ops = append(c.Ops, Op{K: "leader", J: j}, Op{K: "alloc", I: j, N: vkit.PickU(t, counts, "n0")})
 	}
 	for len(c.Ops) < n {
-		switch vkit.Uni(t, 12, "kind") {
+		switch vkit.Uni(t, 14, "kind") {
+		case 12:
+			// the split handlers of the cluster layer hand out several ids per request (region id + one per peer)
+			c.Ops = append(c.Ops, Op{K: "split", I: inst("i"), J: rapid.IntRange(1, 4).Draw(t, "peers"), N: vkit.PickU(t, []int{0, 0, 1, 2, 5}, "batch")})
+		case 13:
+			// the window runs out INSIDE one split request and that one extension fails once
+			j := inst("i")
+			c.Ops = append(c.Ops, Op{K: "leader", J: j}, Op{K: "alloc", I: j, N: vkit.PickU(t, []int{995, 996, 997, 998, 999, 1995, 1998}, "fill")},
+				Op{K: "fail", I: j, Fail: vkit.PickU(t, []string{"before", "before", "lostack"}, "sfk")},
+				Op{K: "split", I: j, J: rapid.IntRange(2, 4).Draw(t, "peers2"), N: vkit.PickU(t, []int{0, 0, 2}, "batch2")},
+				Op{K: "alloc", I: j, N: 1})
 		case 0, 1, 2:
 			c.Ops = append(c.Ops, Op{K: "alloc", I: inst("i"), N: vkit.PickU(t, counts, "n")})
 		case 4, 5, 6:
@@ -142,6 +159,9 @@ type instance struct {
 	alloc  id.Allocator
 	last   uint64
 	gen    int
+	rc     *cluster.RaftCluster // created on first use by askSplit
+	bc     *core.BasicCluster
+	cancel context.CancelFunc
 }
 
 type world struct {
@@ -347,6 +367,33 @@ func runCase(c Case) (vkit.Info, error) {
 				}
 				returned[op.I] = true
 			}
+		case "split":
+			// RaftCluster.HandleAskSplit / HandleAskBatchSplit over this instance's real allocator: every id of a
+			// SUCCESSFUL answer is an allocation (non-zero, increasing for this instance, distinct from everything
+			// ever returned, inside a stored window); a failed answer hands out nothing
+			peers := op.J
+			if peers < 1 {
+				peers = 1
+			}
+			ids, serr := askSplit(in, peers, op.N)
+			if serr != nil {
+				info.Class("split-refused")
+				break
+			}
+			info.Class("split-answered")
+			for _, v := range ids {
+				if v == 0 {
+					return info, fmt.Errorf("op %d split by %s: a successful answer carries id 0 (ids %v): an id that was never allocated", step, who, ids)
+				}
+				if v <= in.last {
+					return info, fmt.Errorf("op %d split by %s: answer %v is not increasing after %d", step, who, ids, in.last)
+				}
+				in.last = v
+				if e := w.record(in, v, who+"/split"); e != nil {
+					return info, fmt.Errorf("op %d split: %v", step, e)
+				}
+			}
+			returned[op.I] = true
 		case "rebase":
 			w.mu.Lock()
 			leader := w.leader
@@ -561,4 +608,44 @@ func runCase(c Case) (vkit.Info, error) {
 	info.ClassIf(w.extAfterSwitch, "extension-after-switch")
 	info.NonTrivial = len(returned) >= 2 && w.extAfterSwitch
 	return info, nil
+}
+
+// askSplit sends one AskSplit (batch = 0) or AskBatchSplit (batch splits) for a region with the given number of
+// peers to a RaftCluster whose id allocator is the instance's real allocator, and returns every id of the answer.
+func askSplit(in *instance, peers, batch int) ([]uint64, error) {
+	if in.rc == nil {
+		cfg := config.NewConfig()
+		if err := cfg.Adjust(nil, false); err != nil {
+			return nil, err
+		}
+		ctx, cancel := context.WithCancel(context.Background())
+		in.cancel = cancel
+		in.rc = cluster.NewRaftCluster(ctx, "", 1, nil, nil, nil)
+		in.bc = core.NewBasicCluster()
+		in.rc.InitCluster(in.alloc, config.NewPersistOptions(cfg), core.NewStorage(kv.NewMemoryKV()), in.bc)
+	}
+	reg := &metapb.Region{Id: 1 << 40, RegionEpoch: &metapb.RegionEpoch{ConfVer: 1, Version: 1}}
+	for p := 0; p < peers; p++ {
+		reg.Peers = append(reg.Peers, &metapb.Peer{Id: 1<<40 + uint64(p) + 1, StoreId: uint64(p) + 1})
+	}
+	in.bc.PutRegion(core.NewRegionInfo(reg, reg.Peers[0]))
+	var out []uint64
+	if batch <= 0 {
+		resp, err := in.rc.HandleAskSplit(&pdpb.AskSplitRequest{Region: reg})
+		if err != nil {
+			return nil, err
+		}
+		out = append(out, resp.GetNewRegionId())
+		out = append(out, resp.GetNewPeerIds()...)
+		return out, nil
+	}
+	resp, err := in.rc.HandleAskBatchSplit(&pdpb.AskBatchSplitRequest{Region: reg, SplitCount: uint32(batch)})
+	if err != nil {
+		return nil, err
+	}
+	for _, sid := range resp.GetIds() {
+		out = append(out, sid.GetNewRegionId())
+		out = append(out, sid.GetNewPeerIds()...)
+	}
+	return out, nil
 }
